@@ -17,6 +17,8 @@ MInit(slice, tick) ==
      slice |-> slice, tick |-> tick, n0 |-> 0, b |-> [ctx |-> 0, susp |-> FALSE, wake |-> 0, clk |-> 0], inSlice |-> FALSE, lastEmpty |-> FALSE,
      born |-> [c \in 0..16 |-> Inf], died |-> [c \in 0..16 |-> Inf],
      snapGone |-> [c \in 0..16 |-> {}], snapFin |-> [c \in 0..16 |-> {}],
+     waitFor |-> [k \in Labels |-> 0],    \* the condition a script said it waits for (waitUntil) with its last statement (0: none)
+     flag |-> [f \in Labels |-> FALSE],   \* conditions whose setting statement has been reached
      napEnd |-> [k \in Labels |-> 0],      \* requested wake-up time of the sleep a script announced (0: none)
      step |-> [k \in Labels |-> 0], ctxOf |-> [k \in Labels |-> 0], fin |-> [k \in Labels |-> FALSE], tdone |-> [k \in Labels |-> FALSE],
      viol |-> "", what |-> ""]
@@ -55,12 +57,16 @@ Step(mm, e) ==
           [] e.t = "mark" ->
             LET k == e.label
                 m1 == [mm EXCEPT !.step[k] = e.step, !.ctxOf[k] = e.ctx, !.fin[k] = e.last,
-                                 !.napEnd[k] = IF e.nap > 0 THEN e.clk + e.nap ELSE 0]
+                                 !.napEnd[k] = IF e.nap > 0 THEN e.clk + e.nap ELSE 0,
+                                 !.waitFor[k] = e.waits,
+                                 !.flag = IF e.sets > 0 THEN [mm.flag EXCEPT ![e.sets] = TRUE] ELSE mm.flag]
             IN IF ~mm.inSlice \/ mm.b.ctx # e.ctx THEN Fail(mm, "OnlyScheduledRuns", "statement of a script that holds no slice")
                ELSE IF e.step # mm.step[k] + 1 THEN Fail(mm, "Isolation", "own statement order broken")
                ELSE IF mm.tdone[k] THEN Fail(mm, "TerminateEffective", "terminated script executed a statement")
                \* the statement before asked to sleep until napEnd (as written in the script): not resumed earlier
                ELSE IF mm.napEnd[k] > 0 /\ e.clk + 2 * mm.tick < mm.napEnd[k] THEN Fail(mm, "NoEarlyWake", "resumed before the requested wake-up time")
+               \* the statement before waits for a condition (waitUntil): not resumed before the statement that makes it true was reached
+               ELSE IF ~WaitHolds(mm.waitFor[k], mm.flag) THEN Fail(mm, "WaitHolds", "went on before the condition it waits for held")
                ELSE m1
           [] e.t = "poll" ->      \* the poll instruction executed now: remember what was true at this moment
             [mm EXCEPT !.snapGone[e.ctx] = { k \in Labels : mm.ctxOf[k] # 0 /\ mm.died[mm.ctxOf[k]] # Inf },
